@@ -2,7 +2,7 @@
 from ..rules import failure, holds, flow, folds
 from .common import declare
 
-RULES = ['EMIT-AFTER-REL', 'NO-SWALLOWING-GATHER', 'ACC-CONTRACT', 'RERAISE', 'STATE-AFTER-CALL', 'STATE-FROM-RESULT', 'NO-REL-ON-FAIL', 'SYNC-TRANSPORT', 'EMIT-CONVERT']
+RULES = ['PROPAGATE', 'EMIT-AFTER-REL', 'NO-SWALLOWING-GATHER', 'ACC-CONTRACT', 'RERAISE', 'STATE-AFTER-CALL', 'STATE-FROM-RESULT', 'NO-REL-ON-FAIL', 'SYNC-TRANSPORT', 'EMIT-CONVERT']
 FLOORS = {'RERAISE': 2, 'STATE-AFTER-CALL': 5, 'STATE-FROM-RESULT': 1, 'NO-REL-ON-FAIL': 1, 'SYNC-TRANSPORT': 3, 'EMIT-CONVERT': 3}
 
 META = {
@@ -34,6 +34,9 @@ def run(ctx, R):
     for k in [k for k in R.obs if k[0] not in RULES]:
         del R.obs[k]
     R.run(flow.check_sync_transport, ctx, R)
+    # "carried by the awaitable of an asynchronous emit": a node that drops what _emit returned also drops the failure of an
+    # asynchronous consumer behind it
+    R.run(flow.check_propagate, ctx, R, modules=('streamz.core', 'streamz.sinks'), note_modules=())
     R.run(flow.check_emit_convert, ctx, R)
 
 
